@@ -128,6 +128,7 @@ struct ReplyWorld : World {
 			if (iof && op.kind == OP_SERVE && r.chance(1, pressure ? 2 : 4)) { op.fault = FL_ALLOC; op.fa = (pressure ? r.range(1, 2) : r.range(1, 4)) + (r.chance(1, 3) ? 16 : 0); }
 			p.ops.push_back(op);
 		}
+		p.set("rdwr", r.chance(1, 2));         // the input is opened read/write the way the library's own callers do (RdWr | Buffer), or with the write flag as well
 		p.set("discards", r.chance(1, 6));     // some serve ops dispatch without handler (op.a bits 8..11 == 3)
 		p.set("varlong", r.chance(1, 2));     // long replies of 150..749 bytes: the point where the write queue has to grow falls anywhere in a later reply
 	}
@@ -171,7 +172,7 @@ struct ReplyWorld : World {
 		int up = simio::new_chan(1 << 20), down = simio::new_chan(chancap);     // requester -> responder, responder -> requester
 		int sfd = simio::new_fd(up, down, O_RDWR | O_NONBLOCK);
 		static const int codes[] = {EncodingCobs, EncodingCobsInline, EncodingCobs | EncodingCompress, EncodingCobsInline | EncodingCompress};
-		input *in; { socket sk; sk._id = sfd; { Sut s; in = mpt_stream_input(&sk, stream::RdWr | stream::Write | stream::Buffer, codes[framing], idlen); } sk._id = -1; }
+		input *in; { socket sk; sk._id = sfd; { Sut s; in = mpt_stream_input(&sk, (p.get("rdwr") ? stream::RdWr : stream::RdWr | stream::Write) | stream::Buffer, codes[framing], idlen); } sk._id = -1; }
 		if (!in) fail("setup", "mpt_stream_input failed");
 		log.ev("reply L1 idlen=%u framing=%s chancap=%zu", idlen, ref::framing_name(framing), chancap);
 		st.hit("layer:L1");
